@@ -88,8 +88,7 @@ class GearBus:
                 g.init = "DISABLED"
         elif name == "Initialise":
             for g in G:
-                if g.init == "DISABLED" and (lb == 0 or (lb == 255 and g.short == 255) or
-                                             (lb < 128 and lb % 2 == 1 and g.short == lb >> 1)):
+                if lb == 0 or (lb == 255 and g.short == 255) or (lb < 128 and lb % 2 == 1 and g.short == lb >> 1):
                     g.init = "ENABLED"
         elif name == "Randomise":
             for k, g in enumerate(G):
@@ -163,7 +162,7 @@ def to_response(cmd, resp):
         return cmd.response(None)
     if kind == "val":
         return cmd.response(BackwardFrame(v))
-    return cmd.response(BackwardFrameError(v if v else 255))
+    return cmd.response(BackwardFrameError(v))
 
 
 def drive(gen, answer, cap):
@@ -246,7 +245,11 @@ class MemUnitSim:
 
     def _faulted(self, ans):
         if self.fault[1] != "none" and self.nans + 1 == self.fault[0]:
-            return ("none", 0) if self.fault[1] == "silent" else ("err", 255)
+            if self.fault[1] == "silent":
+                return ("none", 0)
+            if self.fault[1] == "errsame" and ans[0] == "val":
+                return ("err", ans[1])
+            return ("err", 255)
         return ans
 
     def step(self, ln, f):
